@@ -669,10 +669,9 @@ func (r *runner) buildNative(dir string) (string, error) {
 	repl := map[string]string{}
 	i := 0
 	for vp, content := range ov {
-		if !strings.HasPrefix(vp, filepath.Join(repoDir, dir)+"/") {
-			continue
-		}
-		real := filepath.Join(r.tmp, fmt.Sprintf("ov%d_%s", i, filepath.Base(vp)))
+		// harness files of other package directories are part of the build too (helpers that a harness
+		// imports from a dependency, e.g. C17's in-memory face in package face)
+		real := filepath.Join(r.tmp, fmt.Sprintf("ov%s_%d_%s", strings.ReplaceAll(dir, "/", "_"), i, filepath.Base(vp)))
 		i++
 		if err := os.WriteFile(real, content, 0o644); err != nil {
 			return "", err
